@@ -1142,6 +1142,12 @@ METHODS2 = {
     ("Int", "max"): ("(GluePrelude.max {0} {1})", "Int"),
     ("Int", "abs_diff"): ("(GluePrelude.abs_diff {0} {1})", "Int"),
     ("Int", "saturating_sub"): ("(GluePrelude.saturating_sub {0} {1})", "Int"),
+    # C05 (round 5): `isize::saturating_add` over the unbounded `Int` of the model is the exact sum (the model assumes no
+    # exponent overflow); lets proposed_fixes/c05-float-cmp-exponent-overflow.diff regenerate the same text
+    ("Int", "saturating_add"): ("(GluePrelude.add_ {0} {1})", "Int"),
+    # C03 (round 5): likewise `usize::saturating_mul` is the exact product over the model's unbounded `Int`; lets
+    # proposed_fixes/float-precision-usize-overflow.diff (`self.precision.saturating_mul(2)`) regenerate
+    ("Int", "saturating_mul"): ("(GluePrelude.mul_ {0} {1})", "Int"),
     ("Int", "unsigned_abs"): ("(GluePrelude.unsigned_abs {0})", "Int"),
     ("Int", "bit_len"): ("(GluePrelude.bit_len {0})", "Int"),
     ("Int", "are_low_bits_nonzero"): ("(GluePrelude.are_low_bits_nonzero {0} {1})", "Bool"),
@@ -3752,6 +3758,84 @@ def gen_modular():
 FILES["Modular.lean"] = gen_modular               # C13: reduced-ring decision logic (additive)
 
 
+def gen_modular_buf():
+    """C13 (round 5): buffer-level decision logic of the multi-word ring that `lean/Dashu/Model/NT/ModLargeK.lean` mirrors —
+    `ConstLargeDivisor::rem_large` (integer/src/div_const.rs): the "long enough to divide" test; `mul_normalized` /
+    `sqr_normalized` (integer/src/modular/mul.rs): the length of the product buffer, the "nothing to multiply" early return
+    and the one-word-by-one-word shortcut.  `Props/C13Link` proves the model's tests equal to these regenerated definitions.
+    Fails closed when a routine no longer has the shape the model mirrors."""
+    out = ["import Dashu.Model.GluePrelude",
+           "/-! GENERATED by vlib/extract.py from /repo — do not edit.  Buffer-level decision logic of the multi-word reduced ring (C13). -/",
+           "namespace Dashu.Gen.ModularBuf", "open Dashu", "set_option linter.unusedVariables false", ""]
+    info = {}
+
+    def strip_comments(t):
+        return re.sub(r"//[^\n]*", "", t)
+
+    def h(t):
+        return hashlib.sha1(t.encode()).hexdigest()[:12]
+
+    dsrc = read("integer/src/div_const.rs")
+    _, body = fn_body(dsrc, "rem_large", after=r"impl\s+ConstLargeDivisor\s*\{")
+    body = strip_comments(body)
+    mm = re.search(r"\bif\s+([^{};]+?)\s*\{\s*let\s+mut\s+allocation\b", body)
+    if not mm or len(re.findall(r"\bif\b", body)) != 1 or len(re.findall(r"div::div_rem_in_place\(", body)) != 1:
+        raise ExtractError("integer/src/div_const.rs ConstLargeDivisor::rem_large: `if … { let mut allocation … div::div_rem_in_place(` not found exactly once")
+    cond = mm.group(1).strip()
+    if not re.search(r"let\s+modulus\s*=\s*&self\.normalized_divisor\s*;", body) or not re.search(r"words\.push_resizing\(carry\)\s*;", body) \
+            or not re.search(r"words\.truncate\(modulus\.len\(\)\)\s*;", body):
+        raise ExtractError("integer/src/div_const.rs ConstLargeDivisor::rem_large: push_resizing(carry) / modulus / truncate(modulus.len()) shape changed")
+    c2 = cond.replace("words.len()", "words_len").replace("modulus.len()", "modulus_len")
+    if sorted(set(re.findall(r"\b[a-z_]\w*\b", c2))) != ["modulus_len", "words_len"]:
+        raise ExtractError("integer/src/div_const.rs ConstLargeDivisor::rem_large: unexpected operands in the division test: %s" % cond)
+    lean, _ = translate_body("{ " + c2 + " }")
+    out.append("/-- `ConstLargeDivisor::rem_large` (integer/src/div_const.rs): the shifted buffer (after `push_resizing(carry)`) goes through\n    `div_rem_in_place` and is truncated iff `%s` -/" % cond)
+    out.append("def rem_large_divides (words_len modulus_len : Int) : Bool :=\n    %s\n" % lean)
+    info["ModularBuf.rem_large_divides"] = h(cond)
+
+    msrc = read("integer/src/modular/mul.rs")
+    for fn, names, zero_names in (("mul_normalized", ["n", "na", "nb"], ["na", "nb"]), ("sqr_normalized", ["n", "na"], ["na"])):
+        _, body = fn_body(msrc, fn)
+        body = strip_comments(body)
+        ml = re.search(r"allocate_slice_fill::<Word>\(\s*([^;]+?)\s*,\s*0\s*\)\s*;", body)
+        if not ml:
+            raise ExtractError("integer/src/modular/mul.rs %s: product buffer allocation not found" % fn)
+        lexp = ml.group(1).strip()
+        if sorted(set(re.findall(r"\b[a-z_]\w*\b", lexp)) - {"max"}) != names:
+            raise ExtractError("integer/src/modular/mul.rs %s: unexpected operands in the buffer length: %s" % (fn, lexp))
+        lean, _ = translate_body("{ " + lexp + " }")
+        out.append("/-- `%s` (integer/src/modular/mul.rs): number of words of the product buffer, `%s` -/" % (fn, lexp))
+        out.append("def %s_buffer_len (%s : Int) : Int :=\n    %s\n" % (fn, " ".join(names), lean))
+        info["ModularBuf.%s_buffer_len" % fn] = h(lexp)
+        mz = re.search(r"\bif\s+([^{};]+?)\s*\{\s*return\s+product\s*;\s*\}\s*else\s+if\s+([^{};]+?)\s*\{", body)
+        if not mz:
+            raise ExtractError("integer/src/modular/mul.rs %s: `if … { return product; } else if … {` not found" % fn)
+        zc, oc = mz.group(1).strip(), mz.group(2).strip()
+        mo = re.fullmatch(r"(\w+)\s*\|\s*(\w+)\s*==\s*0", zc)
+        if mo:      # Rust: `|` binds tighter than `==`
+            if [mo.group(1), mo.group(2)] != zero_names:
+                raise ExtractError("integer/src/modular/mul.rs %s: unexpected early-return test: %s" % (fn, zc))
+            zlean = "(GluePrelude.eq_ (GluePrelude.bitor %s %s) (0))" % (mo.group(1), mo.group(2))
+        else:
+            if sorted(set(re.findall(r"\b[a-z_]\w*\b", zc))) != zero_names:
+                raise ExtractError("integer/src/modular/mul.rs %s: unexpected early-return test: %s" % (fn, zc))
+            zlean, _ = translate_body("{ " + zc + " }")
+        out.append("/-- `%s`: the zero-filled buffer is returned at once iff `%s` -/" % (fn, zc))
+        out.append("def %s_is_zero (%s : Int) : Bool :=\n    %s\n" % (fn, " ".join(zero_names), zlean))
+        info["ModularBuf.%s_is_zero" % fn] = h(zc)
+        if sorted(set(re.findall(r"\b[a-z_]\w*\b", oc))) != zero_names:
+            raise ExtractError("integer/src/modular/mul.rs %s: unexpected one-word shortcut test: %s" % (fn, oc))
+        olean, _ = translate_body("{ " + oc + " }")
+        out.append("/-- `%s`: the product is formed by one `extend_word` multiplication iff `%s` (else `mul::multiply` / `sqr::sqr`) -/" % (fn, oc))
+        out.append("def %s_one_word (%s : Int) : Bool :=\n    %s\n" % (fn, " ".join(zero_names), olean))
+        info["ModularBuf.%s_one_word" % fn] = h(oc)
+    out.append("end Dashu.Gen.ModularBuf")
+    return "\n".join(out) + "\n", info
+
+
+FILES["ModularBuf.lean"] = gen_modular_buf        # C13 round 5: buffer-level decision logic of rem_large / mul_normalized (additive)
+
+
 # ------------------------------------------------------------------ C09: integer/src/math.rs helpers + the inline arms of bits.rs / shift_ops.rs
 #                                                                    over CHECKED machine integers
 
@@ -4323,6 +4407,85 @@ def gen_conv_consts():
 
 FILES["ConvConsts.lean"] = gen_conv_consts        # C06: literal constants of the float conversions (additive)
 
+
+def gen_conv_tofloat():
+    """C06: the decision logic of `Repr::to_float` (rational/src/third_party/dashu_float.rs) that the mirrored model
+    `lean/Dashu/Model/Conv/ToFloat.lean` CALLS: the no-shift test `num_digits >= precision + den_digits`, the shift amount
+    `(precision + den_digits) - num_digits` (translated token by token over Nat), the panic sites of `assert!(precision > 0)`
+    and of the debug-build overflow check of that addition.  Fails closed when the routine no longer has the mirrored shape."""
+    rel = "rational/src/third_party/dashu_float.rs"
+    src = read(rel)
+    _, body = fn_body(src, "to_float")
+    nc = re.sub(r"//[^\n]*", "", body)
+
+    def one(pat, what, flags=0):
+        ms = re.findall(pat, nc, flags)
+        if len(ms) != 1:
+            raise ExtractError("%s to_float: expected exactly one match of %r (%s), found %d" % (rel, pat, what, len(ms)))
+        return ms[0]
+
+    def tr(expr):
+        toks = re.findall(r"[A-Za-z_]\w*|>=|<=|==|[-+()<>]|\S", expr)
+        out = []
+        for t in toks:
+            if t in ("num_digits", "den_digits", "precision", "+", "-", "(", ")", "<", ">"):
+                out.append(t)
+            elif t == ">=":
+                out.append("≥")
+            elif t == "<=":
+                out.append("≤")
+            else:
+                raise ExtractError("%s to_float: token %r of %r is outside the translated fragment" % (rel, t, expr))
+        return " ".join(out).replace("( ", "(").replace(" )", ")")
+
+    one(r"assert!\(precision\s*>\s*0\)\s*;", "precision assertion")
+    one(r"let\s+num_digits\s*=\s*self\.numerator\.ilog\(&base\)\s*;", "numerator digit count")
+    one(r"let\s+den_digits\s*=\s*self\.denominator\.ilog\(&base\)\s*;", "denominator digit count")
+    cond = one(r"let\s+\(q,\s*r\)\s*=\s*if\s+([^{}]+?)\s*\{\s*shift\s*=\s*0\s*;", "no-shift test")
+    shift = one(r"\}\s*else\s*\{\s*shift\s*=\s*([^;{}]+?)\s*;\s*if\s+B\s*==\s*2\s*\{", "shift amount")
+    one(r"\(&self\.numerator\s*<<\s*shift\)\.div_rem\(&self\.denominator\)", "binary shift")
+    one(r"\(&self\.numerator\s*\*\s*base\.pow\(shift\)\)\.div_rem\(&self\.denominator\)", "power multiplication")
+    one(r"R::round_ratio\(&q,\s*r,\s*self\.denominator\.as_ibig\(\)\)", "first rounding")
+    one(r"Context::<R>::new\(precision\)", "context")
+    one(r"\.and_then\(\|n\|\s*context\.convert_int\(n\)\)\s*\.map\(\|f\|\s*f\s*>>\s*\(shift as isize\)\)", "second rounding and shift")
+    fpos = src.index("fn to_float")
+
+    def line_of(text):
+        return src.count("\n", 0, src.index(text, fpos)) + 1
+
+    l_assert = line_of("assert!(precision > 0);")
+    m = re.search(r"let\s+\(q,\s*r\)\s*=\s*if\s+", src[fpos:])
+    l_add = src.count("\n", 0, fpos + m.start()) + 1
+    out = ["/-! GENERATED by vlib/extract.py from /repo — do not edit.  Decision logic of `Repr::to_float` (C06). -/",
+           "namespace Dashu.Gen.ConvToFloat", "",
+           "/-- `if %s { shift = 0; … }` (%s:%d) -/" % (cond, rel, l_add),
+           "def to_float_no_shift (num_digits den_digits precision : Nat) : Bool := decide (%s)" % tr(cond), "",
+           "/-- `shift = %s;` (usize subtraction, guarded by the test above) -/" % shift,
+           "def to_float_shift (num_digits den_digits precision : Nat) : Nat := %s" % tr(shift), "",
+           "/-- `assert!(precision > 0)` as the harness prints it -/",
+           "def to_float_assert_site : String := \"%s:%d|assertion_failed:_precision_>_0\"" % (rel, l_assert), "",
+           "/-- debug-build overflow check of `precision + den_digits` -/",
+           "def to_float_add_site : String := \"%s:%d|attempt_to_add_with_overflow\"" % (rel, l_add), ""]
+    # `From<Repr> for FBig<R, B>`: the whole body, whitespace-normalised (the mirrored `fbigFromRat` documents this text;
+    # `Props.C06.fbig_from_rbig_source_shape` compares), and the forwarding of RBig / Relaxed to it
+    mi = re.search(r"impl<R: Round, const B: Word> From<Repr> for FBig<R, B>\s*\{", src)
+    if not mi:
+        raise ExtractError("%s: impl From<Repr> for FBig not found" % rel)
+    _, fbody = fn_body(src[mi.end():], "from")
+    fbody_n = " ".join(re.sub(r"//[^\n]*", "", fbody).split()).strip("{} ").strip()
+    if '"' in fbody_n or "\\" in fbody_n:
+        raise ExtractError("%s: From<Repr> for FBig body cannot be quoted" % rel)
+    if len(re.findall(r"impl<R: Round, const B: Word> From<\$t> for FBig<R, B>\s*\{\s*#\[inline\]\s*fn from\(v: \$t\) -> Self\s*\{\s*v\.0\.into\(\)\s*\}",
+                      src)) != 1:
+        raise ExtractError("%s: forward_conversion_to_repr! no longer forwards From<RBig|Relaxed> to From<Repr>" % rel)
+    out += ["/-- body of `impl From<Repr> for FBig<R, B> { fn from(v: Repr) -> Self }` (whitespace-normalised) -/",
+            "def from_repr_body : String := \"%s\"" % fbody_n, "",
+            "end Dashu.Gen.ConvToFloat"]
+    return "\n".join(out) + "\n", {"rbig_to_float": [cond, shift, l_assert, l_add]}
+
+
+FILES["ConvToFloat.lean"] = gen_conv_tofloat      # C06: decision logic of Repr::to_float (additive)
+
 def gen_scratch():
     """C01 (+ targets proposed by C17): `memory_requirement_*` scratch formulas of mul / sqr / div / root, the `shl_large`
     capacity guard and the buffer / scratch sizes of `pow_word_base` / `pow_dword_base` — see vlib/extract_scratch.py"""
@@ -4335,6 +4498,290 @@ def gen_scratch():
 
 
 FILES["Scratch.lean"] = gen_scratch               # C01/C17: scratch-memory formulas and buffer-size decisions (additive)
+
+
+def gen_int_dispatch():
+    """C01: the TypedRepr-level dispatch of `+ - * sub_signed` (add_ops.rs / mul_ops.rs `mod repr`, `mod repr_signed`), one
+    definition per ownership form, the public `sqr` / `cubic` bodies and the small guards of mul_ops.rs — see
+    vlib/extract_intdispatch.py"""
+    import importlib.util, sys
+    spec = importlib.util.spec_from_file_location("vlib_extract_intdispatch",
+                                                  os.path.join(os.path.dirname(os.path.abspath(__file__)), "extract_intdispatch.py"))
+    mod = importlib.util.module_from_spec(spec)
+    spec.loader.exec_module(mod)
+    return mod.generate(sys.modules[__name__])
+
+
+FILES["IntDispatch.lean"] = gen_int_dispatch      # C01: operator dispatch tables of add_ops.rs / mul_ops.rs (additive)
+
+
+def gen_shift_loops():
+    """C09 (Tie A): the word loops of integer/src/shift.rs (`shl_in_place`, `shr_in_place_with_carry`, `shr_in_place`,
+    `shr_in_place_one_word`) — loop header, loop body, early return, initial carry — over checked machine integers;
+    see vlib/extract_shift.py.  `Props/GenShift.lean` proves them equal to the hand-written mirrors."""
+    import importlib.util, sys
+    spec = importlib.util.spec_from_file_location("vlib_extract_shift",
+                                                  os.path.join(os.path.dirname(os.path.abspath(__file__)), "extract_shift.py"))
+    mod = importlib.util.module_from_spec(spec)
+    spec.loader.exec_module(mod)
+    return mod.generate(sys.modules[__name__])
+
+
+FILES["ShiftLoops.lean"] = gen_shift_loops        # C09: shift.rs word loops over checked machine integers (additive)
+
+
+def gen_bit_scans():
+    """C09 (Tie A): the word scans of integer/src/bits.rs (`trailing_zeros_large`, `trailing_zeros_large_shifted_by_one`,
+    `trailing_ones_large`) — scan loops, checked slice accesses, early exits, index arithmetic — over checked machine
+    integers; see vlib/extract_scans.py.  `Props/GenScans.lean` proves them equal to the hand mirrors."""
+    import importlib.util, sys
+    spec = importlib.util.spec_from_file_location("vlib_extract_scans",
+                                                  os.path.join(os.path.dirname(os.path.abspath(__file__)), "extract_scans.py"))
+    mod = importlib.util.module_from_spec(spec)
+    spec.loader.exec_module(mod)
+    return mod.generate(sys.modules[__name__])
+
+
+FILES["BitScans.lean"] = gen_bit_scans            # C09: bits.rs word scans over checked machine integers (additive)
+
+
+def gen_shift_heap():
+    """C09 (Tie A): the heap arms of `<<` / `>>` of integer/src/shift_ops.rs (`shl_one_spilled`, `shl_dword_spilled`,
+    `shl_large_ref`, `shl_large`, `shr_large`) — buffer statements, calls of the regenerated loops and helpers, the capacity
+    branch — see vlib/extract_shiftheap.py.  `Props/GenShiftHeap.lean` proves them equal to the hand model's arms."""
+    import importlib.util, sys
+    spec = importlib.util.spec_from_file_location("vlib_extract_shiftheap",
+                                                  os.path.join(os.path.dirname(os.path.abspath(__file__)), "extract_shiftheap.py"))
+    mod = importlib.util.module_from_spec(spec)
+    spec.loader.exec_module(mod)
+    return mod.generate(sys.modules[__name__])
+
+
+FILES["ShiftHeap.lean"] = gen_shift_heap          # C09: shift_ops.rs heap arms (additive)
+
+
+def gen_bits_heap():
+    """C09 (Tie A): the heap arms of set_bit / clear_high_bits of integer/src/bits.rs (`with_bit_dword_spilled`,
+    `with_bit_large`, `clear_high_bits_large`) with the translator of vlib/extract_shiftheap.py.
+    `Props/GenBitsHeap.lean` proves them equal to the hand model's arms."""
+    import importlib.util, sys
+    spec = importlib.util.spec_from_file_location("vlib_extract_shiftheap",
+                                                  os.path.join(os.path.dirname(os.path.abspath(__file__)), "extract_shiftheap.py"))
+    mod = importlib.util.module_from_spec(spec)
+    spec.loader.exec_module(mod)
+    return mod.generate_bits(sys.modules[__name__])
+
+
+FILES["BitsHeap.lean"] = gen_bits_heap            # C09: bits.rs heap arms of set_bit / clear_high_bits (additive)
+
+
+def gen_bitops_heap():
+    """C09 (Tie A): the word loops of the unsigned bit operators of integer/src/bits.rs (`bitand_large`, `bitor_large`,
+    `bitxor_large`, `and_not_large`, `*_large_dword`) with the translator of vlib/extract_shiftheap.py.
+    `Props/GenBitOpsHeap.lean` proves them equal to the hand model's zipAnd / zipOr / zipXor / zipAndNot / opLargeDword."""
+    import importlib.util, sys
+    spec = importlib.util.spec_from_file_location("vlib_extract_shiftheap",
+                                                  os.path.join(os.path.dirname(os.path.abspath(__file__)), "extract_shiftheap.py"))
+    mod = importlib.util.module_from_spec(spec)
+    spec.loader.exec_module(mod)
+    return mod.generate_bitops(sys.modules[__name__])
+
+
+FILES["BitOpsHeap.lean"] = gen_bitops_heap        # C09: bits.rs word loops of & | ^ and_not (additive)
+
+def gen_float_norm():
+    """C05 (Tie A): `Repr::<B>::normalize` of float/src/repr.rs through the typed translator after three checked
+    desugarings (struct pattern, UFCS, `&mut self` method in state-passing form) — see vlib/extract_floatnorm.py.
+    `Props/GenFloatNorm.lean` proves it equal to the hand models of C05 (`FRepr.normalize`) and C03 (`FRepr.new`)."""
+    import importlib.util, sys
+    spec = importlib.util.spec_from_file_location("vlib_extract_floatnorm",
+                                                  os.path.join(os.path.dirname(os.path.abspath(__file__)), "extract_floatnorm.py"))
+    mod = importlib.util.module_from_spec(spec)
+    spec.loader.exec_module(mod)
+    return mod.generate(sys.modules[__name__])
+
+
+FILES["FloatNorm.lean"] = gen_float_norm          # C05: Repr::normalize regenerated (additive)
+
+def gen_div_plumbing():
+    """C02 (Tie A): the operator-trait plumbing table of integer division (which TypedRepr dispatch function, sign-table
+    macro and operand accessor each `impl Trait<Rhs> for Lhs` of div_ops.rs / div_const.rs reaches), read from the
+    MACRO-EXPANDED dashu-int — see vlib/divplumb.py.  The expansion (`cargo +nightly rustc -Zunpretty=expanded`, cached
+    under .cache/c02-expand by a hash of the sources) is only run when the calling check builds a module that imports
+    `Dashu.Gen.DivPlumbing`; for every other caller the file keeps its text.  `Props/C02Plumbing.lean` proves that every
+    generated entry computes what C02 requires of its trait."""
+    import importlib.util, subprocess
+    path = os.path.join(GEN_DIR, "DivPlumbing.lean")
+    mods = _caller_modules()
+    needed = gen_files_needed(mods) if mods is not None else None
+    if needed is not None and "DivPlumbing.lean" not in needed and os.path.exists(path):
+        return open(path).read(), {}
+    spec = importlib.util.spec_from_file_location("vlib_divplumb",
+                                                  os.path.join(os.path.dirname(os.path.abspath(__file__)), "divplumb.py"))
+    mod = importlib.util.module_from_spec(spec)
+    spec.loader.exec_module(mod)
+    try:
+        text, info = mod.generate(REPO)
+    except (mod.PlumbError, RuntimeError, OSError, subprocess.SubprocessError) as e:
+        raise ExtractError("division plumbing table: %s" % (str(e)[-600:],))
+    if info.get("unclassified"):
+        # still written (the theorems over it then fail closed), but say so in the evidence
+        info["note"] = "impl bodies outside the known shapes: " + ", ".join(info["unclassified"])
+    return text, {"DivPlumbing": info}
+
+
+FILES["DivPlumbing.lean"] = gen_div_plumbing      # C02: operator-trait plumbing table of integer division (additive)
+
+
+def gen_error_bounds():
+    """C18 (Tie A): the six `impl ErrorBounds for mode::X` of float/src/round.rs as decision tables, the half-ulp significand
+    formula, and the decision skeleton of `RBig::simplest_from_float` — see vlib/extract_errorbounds.py.  `Props/C18Gen.lean`
+    proves the hand model (`roundingSet Quirks.code`, the unlimited-precision panic, `fbigIsInfinite`, `pickSimplest`)
+    equal to them."""
+    import importlib.util, sys
+    spec = importlib.util.spec_from_file_location("vlib_extract_errorbounds",
+                                                  os.path.join(os.path.dirname(os.path.abspath(__file__)), "extract_errorbounds.py"))
+    mod = importlib.util.module_from_spec(spec)
+    spec.loader.exec_module(mod)
+    return mod.generate(sys.modules[__name__])
+
+
+FILES["ErrorBounds.lean"] = gen_error_bounds      # C18: ErrorBounds tables + simplest_from_float skeleton (additive)
+
+
+def gen_trans_prec():
+    """C11 (Tie A): the working-precision / guard-digit formulas of float/src/exp.rs, float/src/log.rs and the exponent of
+    `FBig::sub_ulp` (float/src/fbig.rs), one Lean definition per source statement — see vlib/extract_transprec.py.
+    `Props/C11Gen.lean` proves the definitions of the hand model (`Model/Trans/{Series,Powi,PowiNeg}.lean`) equal to them."""
+    import importlib.util, sys
+    spec = importlib.util.spec_from_file_location("vlib_extract_transprec",
+                                                  os.path.join(os.path.dirname(os.path.abspath(__file__)), "extract_transprec.py"))
+    mod = importlib.util.module_from_spec(spec)
+    spec.loader.exec_module(mod)
+    return mod.generate(sys.modules[__name__])
+
+
+FILES["TransPrec.lean"] = gen_trans_prec          # C11: precision / guard-digit formulas of exp.rs, log.rs, sub_ulp (additive)
+
+
+def gen_rat_ops():
+    """C04 (Tie A): every operator macro body of rational/src/{add,mul,div}.rs (`impl_add_or_sub_with_rbig`, `impl_mul_int_with_rbig`,
+    `impl_rbig_div_ibig`, … 24 bodies) as a Lean `do` block over `Model/Ratio/GenPrelude.lean`, plus the table of the
+    `impl_binop_with_macro!` / `impl_binop_with_int!` invocations — see vlib/extract_ratops.py.  `Props/C04Gen.lean` proves every
+    body equal to the hand-written model function the driver executes."""
+    import importlib.util, sys
+    spec = importlib.util.spec_from_file_location("vlib_extract_ratops",
+                                                  os.path.join(os.path.dirname(os.path.abspath(__file__)), "extract_ratops.py"))
+    mod = importlib.util.module_from_spec(spec)
+    spec.loader.exec_module(mod)
+    return mod.generate(sys.modules[__name__])
+
+
+FILES["RatOps.lean"] = gen_rat_ops                # C04: operator macro bodies of dashu-ratio + invocation table (additive)
+
+
+def gen_rat_fns():
+    """C04 (Tie A): the `Repr`-level function bodies of dashu-ratio that are not macro bodies — repr.rs `reduce` / `reduce_with_hint` /
+    `reduce2`, round.rs `split_at_point` / `ceil` / `floor` / `trunc` / `fract` / `round`, div.rs `Inverse::inv`, sign.rs `neg` / `abs` /
+    `Mul<Sign>`, mul.rs `sqr` / `cubic` / `pow`, rbig.rs `from_parts` / `from_parts_signed` of both types — see vlib/extract_ratfns.py.
+    `Props/C04Gen.lean` proves each equal to the hand-written model function the driver executes."""
+    import importlib.util, sys
+    spec = importlib.util.spec_from_file_location("vlib_extract_ratfns",
+                                                  os.path.join(os.path.dirname(os.path.abspath(__file__)), "extract_ratfns.py"))
+    mod = importlib.util.module_from_spec(spec)
+    spec.loader.exec_module(mod)
+    return mod.generate(sys.modules[__name__])
+
+
+FILES["RatFns.lean"] = gen_rat_fns                # C04: Repr-level function bodies of dashu-ratio (additive)
+
+def gen_macro_gen():
+    """C20 (Tie A): decision logic of the code generators of the literal macros (macros/src/parse/{common,int,float,ratio}.rs):
+    `quote_words`' common array length and `DataSelector` table, `define_array_converter!` instantiations and `INT_SIZE`, the
+    const-path guards of `parse_integer` / `parse_binary_float` / `parse_decimal_float` / `parse_ratio`, the
+    `match (signed, static_)` generator table, the `debug_assert!`s of `quote_ubig` / `quote_ibig`, the precision handed to each
+    float constructor — see vlib/extract_macro.py.  `Props/C20Gen.lean` proves the hand model equal to them; the model CALLS
+    `quote_words_max_len`."""
+    import importlib.util, sys
+    spec = importlib.util.spec_from_file_location("vlib_extract_macro",
+                                                  os.path.join(os.path.dirname(os.path.abspath(__file__)), "extract_macro.py"))
+    mod = importlib.util.module_from_spec(spec)
+    spec.loader.exec_module(mod)
+    return mod.generate(sys.modules[__name__])
+
+
+FILES["MacroGen.lean"] = gen_macro_gen            # C20: code-generator decision logic of the literal macros (additive)
+
+def gen_float_text():
+    """C08 (Tie A): the scale-marker table and the hexadecimal-prefix test of `Repr::from_str_native` (float/src/parse.rs), the rows of
+    `impl_fmt_with_base!` and the marker choice of `LowerExp`/`UpperExp` (float/src/fmt.rs) — see vlib/extract_floattext.py.
+    `Props/C08.lean` proves the hand model (`isScaleMarker`, `hasHexPrefix`, `fmtSci`, `fmtRadixTrait`) equal to them."""
+    import importlib.util, sys
+    spec = importlib.util.spec_from_file_location("vlib_extract_floattext",
+                                                  os.path.join(os.path.dirname(os.path.abspath(__file__)), "extract_floattext.py"))
+    mod = importlib.util.module_from_spec(spec)
+    spec.loader.exec_module(mod)
+    return mod.generate(sys.modules[__name__])
+
+
+FILES["FloatText.lean"] = gen_float_text          # C08: scale markers of the literal parser + marker table of the fmt traits (additive)
+
+
+def gen_text_digit():
+    """C07 (Tie A): `digit_from_ascii_byte`, `is_radix_valid`, `MIN_RADIX`, `MAX_RADIX` of integer/src/radix.rs — see
+    vlib/extract_textdigit.py.  `Props/C07.lean` (`digit_table_regenerated`) proves `digitOf` / `validRadix` equal to them."""
+    import importlib.util, sys
+    spec = importlib.util.spec_from_file_location("vlib_extract_textdigit",
+                                                  os.path.join(os.path.dirname(os.path.abspath(__file__)), "extract_textdigit.py"))
+    mod = importlib.util.module_from_spec(spec)
+    spec.loader.exec_module(mod)
+    return mod.generate(sys.modules[__name__])
+
+
+FILES["TextDigit.lean"] = gen_text_digit          # C07: digit table of the parsers + radix range (additive)
+
+
+def gen_arch_add():
+    """C19 (Tie A): integer/src/arch/** — `add_with_carry` / `sub_with_borrow` bodies (generic + x86 intrinsics), module
+    tables, `Word` types and the cfg_if selection chain — see vlib/extract_archadd.py.  `Props/C19Arch.lean` proves them."""
+    import importlib.util, sys
+    spec = importlib.util.spec_from_file_location("vlib_extract_archadd",
+                                                  os.path.join(os.path.dirname(os.path.abspath(__file__)), "extract_archadd.py"))
+    mod = importlib.util.module_from_spec(spec)
+    spec.loader.exec_module(mod)
+    return mod.generate(sys.modules[__name__])
+
+
+FILES["ArchAdd.lean"] = gen_arch_add              # C19: architecture layer add/sub + selection tables (additive)
+
+def gen_size_guards():
+    """C16 (Tie A): size arithmetic in front of `Buffer::allocate` / bare assertions — `Repr::from_chunks` (convert.rs),
+    `max_exp_in_word` (math.rs), rational `Repr::to_float` — see vlib/extract_sizeguards.py.  `Props/C16Gen.lean` proves the
+    hand-mirrored definitions of `Model/Panic/Guards5.lean` equal to them."""
+    import importlib.util, sys
+    spec = importlib.util.spec_from_file_location("vlib_extract_sizeguards",
+                                                  os.path.join(os.path.dirname(os.path.abspath(__file__)), "extract_sizeguards.py"))
+    mod = importlib.util.module_from_spec(spec)
+    spec.loader.exec_module(mod)
+    return mod.generate(sys.modules[__name__])
+
+
+FILES["SizeGuards.lean"] = gen_size_guards        # C16: reservation arithmetic of from_chunks / max_exp_in_word / to_float (additive)
+
+
+def gen_root_tables():
+    """C12 (Tie A): `RSQRT_TAB` / `RCBRT_TAB` (base/src/ring/root.rs), `LOG2_TAB` (base/src/math/log.rs) and the
+    under-estimate margins / index offsets / KBITS of the primitive table+Newton roots — see vlib/extract_roottabs.py.
+    `Props/C12.lean` (`root_tables_regenerated`) proves the hand model's tables and literals equal to them."""
+    import importlib.util, sys
+    spec = importlib.util.spec_from_file_location("vlib_extract_roottabs",
+                                                  os.path.join(os.path.dirname(os.path.abspath(__file__)), "extract_roottabs.py"))
+    mod = importlib.util.module_from_spec(spec)
+    spec.loader.exec_module(mod)
+    return mod.generate(sys.modules[__name__])
+
+
+FILES["RootTables.lean"] = gen_root_tables        # C12: lookup tables + margins of the primitive roots (additive)
 
 # the v2 areas (typed translator) are listed by build_areas(); one Gen file each
 V2_FILES = [a.name + ".lean" for a in build_areas()]
@@ -4513,6 +4960,63 @@ MUTATIONS = [
      "shr_large_ref computes the word shift from the count narrowed to u32 (Props/GenBitsSmall.gen_heap_indices)"),
     ("M29", "integer/src/repr.rs", r"\} else if n <= DWORD_BITS_USIZE \{\n(\s*)Self::from_dword\(ones_dword\(n as _\)\)", "} else if n < DWORD_BITS_USIZE {\n\\1Self::from_dword(ones_dword(n as _))",
      "Repr::ones builds n = DWORD_BITS on the heap again (the historical non-canonical `ones(128)`; Props/GenBitsSmall.gen_ones_inline)"),
+    ("M30", "integer/src/shift.rs", r"for word in words\.iter_mut\(\)\.rev\(\) \{", "for word in words.iter_mut() {",
+     "shr_in_place_with_carry walks the words low word first: the carry travels the wrong way (Props/GenShift.gen_shr_in_place_with_carry)"),
+    ("M31", "integer/src/shift.rs", r"split_dword\(extend_word\(\*word\) << shift\)", "split_dword(extend_word(*word << shift))",
+     "shl_in_place shifts inside the single word: the bits that should become the carry are lost (Props/GenShift.gen_shl_step)"),
+    ("M32", "integer/src/shift.rs", r"(let \(new_word, new_carry\) = shr_word\(\*word, shift\);\n\s*\*word = new_word \| carry;\n\s*)carry = new_carry;", "\\1carry = new_word;",
+     "shr_in_place_with_carry hands the wrong half of shr_word's result on as carry (Props/GenShift.gen_shr_step)"),
+    ("M33", "integer/src/shift.rs", r"ptr\.add\(words\.len\(\) - 1\)\.write\(0\);", "ptr.add(words.len() - 1).write(rem);",
+     "shr_in_place_one_word writes the shifted-out word into the top word (raw-pointer text is recognised verbatim: fails closed)"),
+    ("M34", "integer/src/shift.rs", r"if shift == WORD_BITS \{\n(\s*)shr_in_place_one_word\(words\)", "if shift == 0 {\n\\1shr_in_place_one_word(words)",
+     "shr_in_place takes the whole-word arm for shift 0 instead of WORD_BITS (Props/GenShift.gen_shr_in_place)"),
+    ("M35", "integer/src/helper_macros.rs", r"(impl \$trait<\$t> for \$target \{\n\s*type Output = \$omethod;\n\s*#\[inline\]\n\s*fn \$method\(self, rhs: \$t\) -> \$omethod \{\n\s*)<\$t>::from\(self\)\.\$method\(rhs\)\.try_into\(\)\.unwrap\(\)",
+     "\\1rhs.$method(<$t>::from(self)).try_into().unwrap()",
+     "primitive-first form `uN op big` hands the operands to the operator in the other order (Props/GenBitsPrim: the hand model's `swap` order is read from the source)"),
+    ("M36", "integer/src/helper_macros.rs", r"(fn \$method\(&mut self, rhs: \$target\) \{\n\s*)self\.\$method\(<\$t>::from\(rhs\)\)", "\\1self.$method(<$t>::from(rhs)); self.$method(<$t>::from(rhs))",
+     "`big op= primitive` applies the operator twice (Props/GenBitsPrim.gen_ubig_op_prim; visible for ^=)"),
+    ("M37", "integer/src/bits.rs", r"let mut one_words = 0;", "let mut one_words = 1;",
+     "trailing_ones_large starts its scan at word 1 (half of the historical defect 754b193; Props/GenScans.gen_trailing_ones_large)"),
+    ("M38", "integer/src/bits.rs", r"if one_words == words\.len\(\) \{\n\s*return one_words \* WORD_BITS_USIZE;\n\s*\}\n", "",
+     "trailing_ones_large without the all-ones exit: indexes past the end (the other half of 754b193; Props/GenScans.gen_trailing_ones_large)"),
+    ("M39", "integer/src/bits.rs", r"\(zero_words - 1\) \* WORD_BITS_USIZE \+ zero_bits \+ zero_begin - 1", "(zero_words - 1) * WORD_BITS_USIZE + zero_bits + zero_begin",
+     "trailing_zeros_large_shifted_by_one off by one (Props/GenScans.gen_trailing_zeros_large_shifted_by_one)"),
+    ("M40", "integer/src/shift_ops.rs", r"buffer\.push_zeros\(shift_words\);\n(\s*)buffer\.push_slice\(words\);", "buffer.push_slice(words);\n\\1buffer.push_zeros(shift_words);",
+     "shl_large_ref pushes the words before the zero words (Props/GenShiftHeap.gen_shl_large_ref)"),
+    ("M41", "integer/src/shift_ops.rs", r"buffer\.push\(1 << \(rhs % WORD_BITS_USIZE\)\);", "buffer.push(1 << (rhs / WORD_BITS_USIZE));",
+     "shl_one_spilled takes the bit position from the word index (Props/GenShiftHeap.gen_shl_one_spilled)"),
+    ("M42", "integer/src/shift_ops.rs", r"buffer\.erase_front\(shift_words\);", "buffer.erase_front(shift_words + 1);",
+     "shr_large drops one word too many (Props/GenShiftHeap.gen_shr_large)"),
+    ("M43", "integer/src/shift_ops.rs", r"(let carry = shift::shl_in_place\(&mut buffer, shift_bits\);\n\s*)buffer\.push\(carry\);\n", "\\1",
+     "shl_large loses the carry word (Props/GenShiftHeap.gen_shl_large)"),
+    ("M44", "integer/src/bits.rs", r"buffer\.push_zeros\(idx - 2\);", "buffer.push_zeros(idx - 1);",
+     "with_bit_dword_spilled pushes one zero word too many (Props/GenBitsHeap.gen_with_bit_dword_spilled)"),
+    ("M45", "integer/src/bits.rs", r"buffer\.push_zeros\(idx - buffer\.len\(\)\);", "buffer.push_zeros(idx + 1 - buffer.len());",
+     "with_bit_large pushes one zero word too many (Props/GenBitsHeap.gen_with_bit_large)"),
+    ("M46", "integer/src/bits.rs", r"if n_words > buffer\.len\(\) \{", "if n_words >= buffer.len() {",
+     "clear_high_bits_large skips the cut inside the top word (Props/GenBitsHeap.gen_clear_high_bits_large)"),
+    ("M47", "integer/src/bits.rs", r"\*last &= ones_word\(\(n % WORD_BITS_USIZE\) as u32\);", "*last &= ones_word((n % WORD_BITS_USIZE) as u32 + 1);",
+     "clear_high_bits_large masks one bit too wide (Props/GenBitsHeap.gen_clear_high_bits_large)"),
+    ("M48", "integer/src/bits.rs", r"(fn bitand_large\(mut buffer: Buffer, rhs: &\[Word\]\) -> Repr \{\n)\s*if buffer\.len\(\) > rhs\.len\(\) \{\n\s*buffer\.truncate\(rhs\.len\(\)\);\n\s*\}\n", "\\1",
+     "bitand_large without the truncation to the shorter operand: high words of the longer buffer survive (Props/GenBitOpsHeap.gen_bitand_large)"),
+    ("M49", "integer/src/bits.rs", r"(fn bitor_large\(.*?)\*x \|= \*y;", "\\1*x ^= *y;",
+     "bitor_large xors the common prefix (Props/GenBitOpsHeap.gen_bitor_large)"),
+    ("M50", "integer/src/bits.rs", r"(fn bitxor_large\(.*?)buffer\.push_slice\(&rhs\[buffer\.len\(\)\.\.\]\);", "\\1",
+     "bitxor_large drops the rest of a longer rhs (Props/GenBitOpsHeap.gen_bitxor_large)"),
+    ("M51", "integer/src/bits.rs", r"\*x &= !\*y;", "*x &= *y;",
+     "and_not_large without the complement (Props/GenBitOpsHeap.gen_and_not_large)"),
+    ("M52", "integer/src/bits.rs", r"words\[\.\.n_words\]\.iter\(\)\.any\(\|x\| \*x != 0\) \|\| ", "",
+     "are_slice_low_bits_nonzero ignores the whole words below the cut: `IBig >> n` no longer floors (Props/GenScans.gen_are_slice_low_bits_nonzero)"),
+    ("M53", "integer/src/bits.rs", r"if n_words >= words\.len\(\) \{\n(\s*)true", "if n_words > words.len() {\n\\1true",
+     "are_slice_low_bits_nonzero leaves one word late: `words[len]` is indexed (Props/GenScans.gen_are_slice_low_bits_nonzero)"),
+    # C01 operator dispatch (Gen/IntDispatch.lean, vlib/extract_intdispatch.py)
+    ("M48", "integer/src/add_ops.rs", r"\(RefLarge\(words0\), Large\(buffer1\)\) => sub_large\(buffer1, words0\)\.neg\(\),", "(RefLarge(words0), Large(buffer1)) => sub_large(buffer1, words0),",
+     "drop the `.neg()` of the large/large arm of `SubSigned<TypedRepr> for TypedReprRef`"),
+    ("M49", "integer/src/mul_ops.rs", r"\(RefLarge\(buffer0\), Small\(dword1\)\) => mul_large_dword\(buffer0\.into\(\), dword1\),\n(\s*)\(RefLarge\(buffer0\), Large\(buffer1\)\) => mul_large\(buffer0, &buffer1\),",
+     "(RefLarge(buffer0), Small(dword1)) => mul_large_dword(buffer0.into(), dword1 + 1),\n\\1(RefLarge(buffer0), Large(buffer1)) => mul_large(buffer0, &buffer1),",
+     "an expression instead of a pattern variable as kernel argument in `Mul<TypedRepr> for TypedReprRef` (outside the subset)"),
+    ("M50", "integer/src/pow.rs", r"let sign = if sign == Negative && exp % 2 == 1 \{", "let sign = if sign == Negative && exp % 4 == 1 {",
+     "parity test of the sign rule of IBig::pow: `exp % 2` -> `exp % 4`"),
 ]
 
 
@@ -4557,6 +5061,13 @@ BENIGN = [
      "an extra `.clone()` in one primitive-operand form (erased by the ownership-form translator)"),
     ("R20", "integer/src/math.rs", r"\(a - T::from\(1u8\)\) / b \+ T::from\(1u8\)", "T::from(1u8) + (a - T::from(1u8)) / b",
      "commuted `+` in ceil_div (Props/GenMath.gen_ceil_div discharges every overflow side condition by omega)"),
+    ("R21", "integer/src/shift_ops.rs", r"if buffer\.capacity\(\) < buffer\.len\(\) \+ shift_words \+ 1 \{", "if buffer.capacity() < buffer.len() + shift_words {",
+     "shl_large: capacity test one word short — the VALUE is the same through either branch (Props/GenShiftHeap.gen_shl_large holds for every capacity; the capacity itself is C17's)"),
+    ("R22", "integer/src/bits.rs", r"buffer\[idx\] \|= 1 << \(n % WORD_BITS_USIZE\);", "buffer[idx] |= 1 << (n % WORD_BITS_USIZE); buffer.ensure_capacity(idx);",
+     "with_bit_large: an extra ensure_capacity in the in-range arm (capacities are not part of the value; Props/GenBitsHeap.gen_with_bit_large survives)"),
+    ("R23", "integer/src/add_ops.rs", r"\(RefSmall\(dword0\), RefLarge\(buffer1\)\) => \{\n\s*sub_large_dword\(buffer1\.into\(\), dword0\)\.neg\(\)\n\s*\}",
+     "(RefSmall(dword0), RefLarge(buffer1)) => sub_large_dword(buffer1.into(), dword0).neg(),",
+     "an arm of the operator dispatch written without the block braces (SubSigned ref/ref, C01)"),
 ]
 
 
